@@ -457,6 +457,14 @@ func renderDoc(top OM, format string, style int) []byte {
 		bb.WriteString("---\n")
 	}
 	emitYAML(&bb, top, step, "", c)
+	if style != 0 && style%7 == 3 {
+		// the same text as a Windows editor saves it
+		return bytes.ReplaceAll(bb.Bytes(), []byte("\n"), []byte("\r\n"))
+	}
+	if style != 0 && style%7 == 5 {
+		// a closing document marker and blank lines at the end
+		bb.WriteString("...\n\n")
+	}
 	return bb.Bytes()
 }
 
